@@ -31,8 +31,11 @@ def build_dir(cid):
     return d
 
 
-def gen_overlay(cid, hook_pkgs, extra=None):
-    """kit -> /repo/lib/verifkit, hooks/<pkg>/*.go -> /repo/<pkg>/zz_verif_*.go (+ extra replacements)."""
+def gen_overlay(cid, hook_pkgs, extra=None, also=()):
+    """kit -> /repo/lib/verifkit, hooks/<pkg>/*.go -> /repo/<pkg>/zz_verif_*.go (+ extra replacements).
+    Hook files named c<NN>_*.go belong to check C<NN> and are only overlaid for that check (or for checks
+    listing that id in `also`); every other hook file (vbase_test.go, crashfs_hook.go ...) is shared."""
+    own = [cid.lower()] + [a.lower() for a in also]
     rep = {}
     for f in sorted(glob.glob(os.path.join(VERIF, "kit", "*.go"))):
         rep[os.path.join(REPO, "lib/verifkit", os.path.basename(f))] = f
@@ -42,6 +45,9 @@ def gen_overlay(cid, hook_pkgs, extra=None):
             rep[os.path.join(REPO, "lib/verifkit", name, os.path.basename(f))] = f
     for pkg in hook_pkgs:
         for f in sorted(glob.glob(os.path.join(VERIF, "hooks", pkg, "*.go"))):
+            m = re.match(r"^(c\d\d)_", os.path.basename(f))
+            if m and m.group(1) not in own:
+                continue
             rep[os.path.join(REPO, pkg, "zz_verif_" + os.path.basename(f))] = f
     if extra:
         rep.update(extra)
@@ -252,7 +258,7 @@ def run_gotest_check(cid, tier, spec, replay=None):
     """Generic in-package overlay check."""
     t0 = time.time()
     extra = spec["overlay_extra"](cid, tier) if spec.get("overlay_extra") else None
-    ov = gen_overlay(cid, spec.get("hooks", [spec["pkg"]]), extra)
+    ov = gen_overlay(cid, spec.get("hooks", [spec["pkg"]]), extra, also=spec.get("also", ()))
     binp = go_test_build(cid, spec["pkg"], ov)
     scratch = scratch_root(cid)
     try:
